@@ -277,6 +277,14 @@ def r_name_table_single_writer(r, prog):
         import guards as _g
         from mirlib import const_int
         brs = branches_on_call(ane, lambda c: c.name() == 'is_some_and' and 'get(arg1.lookup_table,' in vexpr(ane, c.args[0]))
+        if not brs:
+            # the same test written without a closure (a match on the looked-up entry): the blocks from which the registration can no longer
+            # be reached are entered only on edges that require the entry found under this very name to be a primitive
+            reach_ins = {b for b in range(len(ane.blocks)) if ins[0].bb in ane.reachable(b)}
+            skip_entries = [b for b in ane.reachable(0) if b not in reach_ins and not ane.blocks[b].get('cleanup') and not ane.dominates(ins[0].bb, b) and ane.blocks[b]['t']['k'] != 'unreachable'
+                            and any(q in reach_ins for q in ane.preds().get(b, []))]
+            return bool(skip_entries) and all(any(re.match(r"^index\(arg1\.elements,get\(arg1\.lookup_table,parser_scoped_identifier\(borrow\(arg2\)\)\) as Some\.0\) is Primitive$", g)
+                                                  for g in _g.guard_set(prog, ane, b)) for b in skip_entries)
         if len(brs) != 1 or not must_pass(ane, brs[0]['false'], ane.return_blocks(), [ins[0].bb]) or not ane.dominates(brs[0]['bb'], ins[0].bb):
             return False
         cl = closure_of_arg(prog, ane, brs[0]['call'].args[1])
